@@ -54,6 +54,7 @@ def dispatch (op : String) (v : Val) : Option Val :=
   | "C19" => Props.C19.run v
   | "C19t" => Props.C19.checkT.run v
   | "C19m" => Props.C19.checkM.run v
+  | "C19r" => Props.C19.checkR.run v
   | "C20" => Props.C20.check.run v
   | "C20p" => Props.C20.checkPartial.run v
   | "C16" => Props.C16.check.run v
